@@ -70,6 +70,9 @@ def c19_case():
       'structure': st.sampled_from(['scan', 'vmap', 'scan_of_vmap',
                                     'vmap_of_scan']),
       'k_inner': st.integers(0, r), 'k_outer': st.integers(0, r + 1),
+      # the stacked axis may be left unsharded: partition name None
+      'pn_none': st.sampled_from([(False, False), (False, False),
+                                  (True, False), (False, True), (True, True)]),
       'seed': st.integers(0, 2**16)}))
 
 
@@ -77,37 +80,39 @@ def build_linen(case, k_inner, k_outer):
   shape, names = tuple(case['shape']), tuple(case['names'])
   s = case['structure']
   sr = {'params': True}
+  vm_none, sc_none = case.get('pn_none', (False, False))
+  VM, SC = (None if vm_none else 'vm'), (None if sc_none else 'sc')
   if s == 'vmap':
     cls = nn.vmap(VLayer, variable_axes={'params': k_inner}, split_rngs=sr,
-                  in_axes=0, out_axes=0, metadata_params={PN: 'vm'})
+                  in_axes=0, out_axes=0, metadata_params={PN: VM})
     mod = cls(names=names, shape=shape)
     args = (jnp.ones((N_VMAP, 2)),)
-    exp_names = insert(names, k_inner, 'vm')
+    exp_names = insert(names, k_inner, VM)
     exp_shape = insert(shape, k_inner, N_VMAP)
   elif s == 'scan':
     cls = nn.scan(SLayer, variable_axes={'params': k_inner}, split_rngs=sr,
-                  length=N_SCAN, metadata_params={PN: 'sc'})
+                  length=N_SCAN, metadata_params={PN: SC})
     mod = cls(names=names, shape=shape)
     args = (jnp.ones((2,)), None)
-    exp_names = insert(names, k_inner, 'sc')
+    exp_names = insert(names, k_inner, SC)
     exp_shape = insert(shape, k_inner, N_SCAN)
   elif s == 'scan_of_vmap':
     inner = nn.vmap(SLayer, variable_axes={'params': k_inner}, split_rngs=sr,
-                    in_axes=(0, None), out_axes=0, metadata_params={PN: 'vm'})
+                    in_axes=(0, None), out_axes=0, metadata_params={PN: VM})
     cls = nn.scan(inner, variable_axes={'params': k_outer}, split_rngs=sr,
-                  length=N_SCAN, metadata_params={PN: 'sc'})
+                  length=N_SCAN, metadata_params={PN: SC})
     mod = cls(names=names, shape=shape)
     args = (jnp.ones((N_VMAP, 2)), None)
-    exp_names = insert(insert(names, k_inner, 'vm'), k_outer, 'sc')
+    exp_names = insert(insert(names, k_inner, VM), k_outer, SC)
     exp_shape = insert(insert(shape, k_inner, N_VMAP), k_outer, N_SCAN)
   else:
     inner = nn.scan(SLayer, variable_axes={'params': k_inner}, split_rngs=sr,
-                    length=N_SCAN, metadata_params={PN: 'sc'})
+                    length=N_SCAN, metadata_params={PN: SC})
     cls = nn.vmap(inner, variable_axes={'params': k_outer}, split_rngs=sr,
-                  in_axes=(0, None), out_axes=0, metadata_params={PN: 'vm'})
+                  in_axes=(0, None), out_axes=0, metadata_params={PN: VM})
     mod = cls(names=names, shape=shape)
     args = (jnp.ones((N_VMAP, 2)), None)
-    exp_names = insert(insert(names, k_inner, 'sc'), k_outer, 'vm')
+    exp_names = insert(insert(names, k_inner, SC), k_outer, VM)
     exp_shape = insert(insert(shape, k_inner, N_SCAN), k_outer, N_VMAP)
   return mod, args, exp_names, exp_shape
 
@@ -124,7 +129,7 @@ def check_linen(case, k_inner, k_outer, ctx):
   require(tuple(val.shape) == exp_shape, lambda: f'value shape {val.shape}, '
           f'expected {exp_shape}')
   for nm, size in (('sc', N_SCAN), ('vm', N_VMAP)):
-    if nm in exp_names:
+    if nm in exp_names and exp_names.count(nm) == 1:
       require(nm in box.names and val.shape[box.names.index(nm)] == size,
               lambda: f'names {box.names} for shape {val.shape}: {nm!r} does '
               f'not sit on the dimension of size {size}')
@@ -159,7 +164,8 @@ def check_linen(case, k_inner, k_outer, ctx):
         quick_shards=13, thorough_shards=16, shrink=False,
         rule='rank 1-3 parameters boxed with nn.with_partitioning (names incl. '
         'None) under nn.scan, nn.vmap, scan-of-vmap and vmap-of-scan with '
-        'metadata_params partition names and every non-negative stacking axis '
+        'metadata_params partition names (or None: unsharded stacking axis) '
+        'and every non-negative stacking axis '
         '0..rank: after init and after apply, len(names) == ndim, the stacked '
         'dimension sits exactly at the inserted name, names equal the expected '
         'insertion order, get_partition_spec returns them (replicated for '
@@ -171,7 +177,8 @@ def linen_stacking(case, ctx):
   nested = case['structure'] in ('scan_of_vmap', 'vmap_of_scan')
   k_outer = min(case['k_outer'], r + 1) if nested else 0
   check_linen(case, k_inner, k_outer, ctx)
-  ctx.note(labels=[case['structure'], f'ki{k_inner}', f'ko{k_outer}'],
+  ctx.note(labels=[case['structure'], f'ki{k_inner}', f'ko{k_outer}'] + (
+      ['unsharded-stack-axis'] if any(case.get('pn_none', (0, 0))) else []),
            nontrivial=nested or k_inner > 0)
 
 
